@@ -666,7 +666,10 @@ class Service(object):
         if t and len(t.outputs) > output_n and t.outputs[output_n].spent is not None:
             return t.outputs[output_n].spent
         else:
-            return bool(self._provider_execute('isspent', txid, output_n))
+            res = self._provider_execute('isspent', txid, output_n)
+            if res is False:
+                raise ServiceError("Error when retrieving spent status, maximum number of provider errors reached")
+            return bool(res)
 
     def getinfo(self):
         """
